@@ -41,9 +41,10 @@ TECHNIQUE = ("Coq proof (totality incl. fuel, soundness, completeness of the eng
              "parse and the PARSER model's token loop along option prefixes and subcommand names; end-to-end acceptance of every "
              "offered option/subcommand candidate by parse_top on whole lines - round 4: lines with positional values, multi-valued "
              "options, -o=v, per-level subcommand_precedence_over_arg and args_conflicts_with_subcommands, with the engine's pos_index "
-             "and valid_arg_found proved equal to the parser's counter and flag; level correspondence) + extracted-model/implementation "
+             "and valid_arg_found proved equal to the parser's counter and flag; round 5: value terminators of options and positionals; "
+             "level correspondence) + extracted-model/implementation "
              "correspondence")
-LEVEL_TEXT = ("Machine-checked theorems (Coq 8.16, 75 pinned, all closed under the global context) about a function-by-function "
+LEVEL_TEXT = ("Machine-checked theorems (Coq 8.16, 76 pinned, all closed under the global context) about a function-by-function "
               "model of clap_complete::engine::complete: no panic site is reachable and no fuel runs out for any command, argv "
               "and index (build_full's fuel proved sufficient); in state ValueDone every option/subcommand candidate extends the "
               "word and names an option/alias/subcommand of the level reached by the shadow parse; under assert_app's uniqueness "
@@ -79,6 +80,15 @@ LEVEL_TEXT = ("Machine-checked theorems (Coq 8.16, 75 pinned, all closed under t
               "(C18_hide_flag_definitional, C18_hidden_rule_definitional).  ORDER: the final stable sort by (position of the tag, display "
               "order) is modelled (complete_model_ord); C18_sort_final_spec: its result is a permutation of its input, sorted by the key, "
               "stable; C18_order_is_permutation: the ordered result is a permutation of the unordered model's.  "
+              "Round 5 (Complete/EngineTerm.v; the model follows the repair of finding C18-value-terminator, docs/pending/"
+              "engine_value_terminator_fix.diff: parse_opt_value / parse_positional take the word and do what the parser's check_terminator "
+              "does): C18_terminator_step_agreement - on the value terminator of the pending option (any count) both machines are back between "
+              "arguments with nothing pushed; on the terminator of the positional at the counter (between arguments or while it is being "
+              "filled) both move the index / counter on; the classes item18 (`--opt v1..vj ;`, `-o v1..vj ;`, j below the maximum) and pitems18 "
+              "(`;` alone, `v1..vk ;`) now contain terminators, so C18_state_agreement_item18, C18_state_agreement_positionals, C18_shadow_pline and "
+              "the END-TO-END theorem C18_candidate_accepted_pline cover lines with terminators (non-vacuity: EngineTerm.TermLine); "
+              "C18_terminator_before_after: the unrepaired loop stood at the wrong level behind `p --opt a ; sub` / `p a ; sub` and offered an "
+              "option the parser rejects as unknown, the repaired one stands where the parser does.  "
               "The model is tied to clap_complete by running the extracted model "
               "and the real crate on the same generated cases on every check; an independent python oracle splices each candidate "
               "into the line and has the real parser accept it.")
@@ -86,11 +96,13 @@ LEVEL_NOTE = ("Trusted: Coq kernel, extraction, OCaml driver, Rust harness, gene
               "shared with the parser model.  Differential/oracle only: the sort data themselves (clap's display-order counter, headings, rendered argument names as tags: "
               "stream `order` compares lists with the real crate); agreement of the shadow parse's "
               "state with the parser's OUTSIDE the classes item18/pitems18/body18 (multi-valued options with fewer than max values "
-              "followed by another argument, terminators, hyphen values, require_equals, low-index multiples / allow_missing_positional, "
+              "followed by another argument, a terminator that starts with `-` or follows the maximum of the range, hyphen values, require_equals, low-index multiples / allow_missing_positional, "
               "a bounded multi-valued positional after its maximum, flag subcommands, inferred names, the generated help subtree); "
-              "acceptance on whole lines by the REAL parser; custom/path completers not modelled.  A value terminator is unknown to the "
-              "engine (C18_terminator_refuted: `p --opt a ; sub <TAB>` offers an option of the wrong level, replayed on the crate; "
-              "reported, oracle bails out on terminators).  Class boundaries kept as theorems with witnesses replayed on the real crate: require_equals "
+              "acceptance on whole lines by the REAL parser; custom/path completers not modelled.  Finding C18-value-terminator (the engine did "
+              "not know Arg::value_terminator; C18_terminator_before_after, corpus accept.value-terminator.cases) is repaired by "
+              "docs/pending/engine_value_terminator_fix.diff, which model and proofs follow: until it is committed in /repo the check fails "
+              "against /repo (oracle + correspondence) and passes with VERIF_REPO=<clone with the patch>; the oracle reads terminators and "
+              "partially filled multi-valued options (option_values).  Class boundaries kept as theorems with witnesses replayed on the real crate: require_equals "
               "(C18_require_equals_refuted: `p --opt <TAB>` offers a value the parser rejects with UnknownArgument); an option "
               "without long name but with a visible alias is neither recognised by the shadow parse (C18_same_long_refuted) nor "
               "offered (C18_complete_options_alias_refuted = known finding C18-alias-without-primary); --alias=<TAB> offers no values "
@@ -163,6 +175,8 @@ def node_of(sx):
                     a["min"], a["max"] = int(f[1]), int(f[2])
                 elif k == "i":
                     a["index"] = int(f[1])
+                elif k == "t":
+                    a["term"] = unhex(f[1])
             n["args"].append(a)
         elif h == "c":
             n["subs"].append(node_of(it))
@@ -216,6 +230,47 @@ UNSAFE_CMD_FLAGS = {"allow_external_subcommands", "allow_missing_positional", "m
 # subcommand is that subcommand even while a multiple positional is being filled; the scan follows the level it is at.
 
 
+def plain_terminator(a):
+    """the argument's value terminator is a plain word (non-empty, no leading dash): only then does the scan read it"""
+    t = a.get("term")
+    return t is not None and t != b"" and not t.startswith(b"-")
+
+
+def option_values(level, a, words, j):
+    """The words from index j on behind an option `a` that was given without an attached value: by clap's conventions
+    the following plain words are its values until the maximum of `num_args` is reached, the option's
+    `value_terminator` is read (it is dropped) or - the minimum being reached - a word that looks like an option
+    follows.  Returns the index of the first word that is no longer part of the occurrence, None when that cannot be
+    decided by convention or the cursor is still inside the occurrence (a value is pending)."""
+    if "term" in a["flags"] and not plain_terminator(a):
+        return None
+    if a["flags"] & {"hyphen", "negnum"}:
+        return None
+    if (a["min"], a["max"]) != (1, 1) and "delim" in a["flags"]:
+        return None
+    count = 0
+    n = len(words)
+    while True:
+        if j >= n:
+            return None                      # the word under the cursor may still be a value of the option
+        w = words[j]
+        if w == b"" or w == b"-" or w == b"--":
+            return None
+        if w.startswith(b"-"):
+            # a new option: the occurrence is over if it has its minimum (otherwise the line is an error of the prefix)
+            if count < a["min"]:
+                return None
+            return j
+        if "term" in a["flags"] and w == a["term"]:
+            return j + 1
+        if "subcommand_precedence_over_arg" in level["flags"] and find_sub(level, w) is not None:
+            return None
+        count += 1
+        j += 1
+        if count >= a["max"]:
+            return j
+
+
 def scan_prefix(root, words):
     """Conventional scan of the words before the cursor, written from clap's documented command-line
     conventions (not from the engine): returns the level reached when a NEW ARGUMENT MAY START there,
@@ -244,7 +299,7 @@ def scan_prefix(root, words):
             body = w[2:]
             name, eq, _val = body.partition(b"=")
             a = find_long(level, name)
-            if a is None or a["id"] in (b"help", b"version") or a["flags"] & {"term", "reqeq", "positional"}:
+            if a is None or a["id"] in (b"help", b"version") or a["flags"] & {"reqeq", "positional"}:
                 return None
             if a["max"] == 0:
                 if eq:
@@ -252,13 +307,13 @@ def scan_prefix(root, words):
                 i += 1
                 continue
             if eq:
-                if (a["min"], a["max"]) != (1, 1):
+                if (a["min"], a["max"]) != (1, 1) or "term" in a["flags"]:
                     return None
                 i += 1
                 continue
-            if (a["min"], a["max"]) != (1, 1) or i + 1 >= n or words[i + 1].startswith(b"-") or words[i + 1] == b"":
+            i = option_values(level, a, words, i + 1)
+            if i is None:
                 return None
-            i += 2
             continue
         if w.startswith(b"-"):
             chars = ws[1:]
@@ -268,23 +323,26 @@ def scan_prefix(root, words):
             consumed_next = False
             while k < len(chars):
                 a = find_short(level, chars[k])
-                if a is None or a["id"] in (b"help", b"version") or a["flags"] & {"term", "reqeq", "positional"}:
+                if a is None or a["id"] in (b"help", b"version") or a["flags"] & {"reqeq", "positional"}:
                     return None
                 if a["max"] == 0:
                     k += 1
                     continue
-                if (a["min"], a["max"]) != (1, 1):
-                    return None
                 rest = chars[k + 1:]
                 if rest:
+                    if (a["min"], a["max"]) != (1, 1) or "term" in a["flags"]:
+                        return None
                     if rest.startswith("=") and len(rest) == 1:
                         return None
                     break
-                if i + 1 >= n or words[i + 1].startswith(b"-") or words[i + 1] == b"":
-                    return None
                 consumed_next = True
                 break
-            i += 2 if consumed_next else 1
+            if consumed_next:
+                i = option_values(level, a, words, i + 1)
+                if i is None:
+                    return None
+            else:
+                i += 1
             continue
         s = find_sub(level, w)
         if s is not None and seen_arg and "args_conflicts_with_subcommands" in level["flags"]:
@@ -300,8 +358,19 @@ def scan_prefix(root, words):
             i += 1
             continue
         pos = [a for a in level["args"] if "positional" in a["flags"] and a.get("index") == pc + 1]
+        if len(pos) == 1 and "term" in pos[0]["flags"]:
+            # `value_terminator`: the word equal to it ends the values of the positional at the counter (also when it has
+            # none yet) and is itself dropped - the next positional is up and a new argument may start
+            if not plain_terminator(pos[0]) or pos[0]["flags"] & {"last", "tva", "hyphen", "negnum", "delim"}:
+                return None
+            if w == pos[0]["term"]:
+                in_pos = False
+                seen_arg = True
+                pc += 1
+                i += 1
+                continue
         if len(pos) == 1 and (pos[0]["max"] >= 2**62 or "append" in pos[0]["flags"]) and pos[0]["min"] <= 1 \
-                and not pos[0]["flags"] & {"last", "tva", "term", "hyphen", "negnum", "delim"}:
+                and not pos[0]["flags"] & {"last", "tva", "hyphen", "negnum", "delim"}:
             # unbounded / appending positional: every further plain word is one of its values, also one
             # that names a subcommand (Parser::get_matches_with looks for subcommands only outside Pos)
             in_pos = True
@@ -312,7 +381,7 @@ def scan_prefix(root, words):
         # a positional that takes several values or appends is "multiple" for the parser: while it is being
         # filled subcommand names are values, so the level cannot be decided by convention
         if len(pos) != 1 or (pos[0]["min"], pos[0]["max"]) != (1, 1) \
-                or pos[0]["flags"] & {"last", "tva", "term", "append"}:
+                or pos[0]["flags"] & {"last", "tva", "append"}:
             return None
         pc += 1
         seen_arg = True
@@ -846,6 +915,51 @@ def gen_argsconflict(mode):
     return out
 
 
+def gen_terminators(mode):
+    """value terminators and partially filled multi-valued arguments (finding C18-value-terminator): an option with
+    `num_args(lo..=hi)` and a `value_terminator`, a multi-valued positional with one, a subcommand behind them; lines
+    with 0..hi values, with and without the terminator, followed by a flag, a subcommand name or nothing - every
+    count around the bounds of the range x terminator present / absent x continuation x word under the cursor"""
+    def arg(id_, *items):
+        return "(arg %s%s)" % (h(id_), "".join(" " + x for x in items))
+    out = []
+    sub = "(sub (cmd %s %s))" % (h(b"sub"), arg(b"so", "(long %s)" % h(b"so"), "(short %d)" % ord("s"), "(action settrue)"))
+    words = (b"", b"-", b"--", b"--s", b"--p", b"s", b";")
+    for lo, hi in ((1, 3), (0, 2), (2, 2), (1, "inf")):
+        for prec in (False, True):
+            # the option
+            root = "(cmd %s%s %s %s %s)" % (
+                h(b"p"), " (set subcommand_precedence_over_arg)" if prec else "",
+                arg(b"pf", "(long %s)" % h(b"pf"), "(short %d)" % ord("f"), "(action settrue)"),
+                arg(b"opt", "(long %s)" % h(b"opt"), "(short %d)" % ord("o"), "(action set)", "(num %s %s)" % (lo, hi), "(term %s)" % h(b";")),
+                sub)
+            top = 4 if hi == "inf" else hi + 1
+            for k in range(0, top + 1):
+                vals = [b"v%d" % j for j in range(k)]
+                for head in ([b"--opt"], [b"-o"], [b"-fo"]):
+                    for tail in ([], [b";"], [b";", b"sub"], [b"--pf"], [b";", b"--pf"], [b"sub"], [b";", b";"]):
+                        ln = head + vals + tail
+                        for w in words:
+                            out.append(case_line(mode, root, [b"prog"] + ln + [w], len(ln) + 1))
+        # the positional (multi-valued positionals must come last: no low-index multiples here)
+        for with_src in (False, True):
+            args = [arg(b"pf", "(long %s)" % h(b"pf"), "(short %d)" % ord("f"), "(action settrue)")]
+            idx = 1
+            if with_src:
+                args.append(arg(b"src", "(index 1)", "(action set)", "(term %s)" % h(b";")))
+                idx = 2
+            args.append(arg(b"files", "(index %d)" % idx, "(action set)", "(num %s %s)" % (max(lo, 1), hi), "(term %s)" % h(b";")))
+            root = "(cmd %s %s %s)" % (h(b"p"), " ".join(args), sub)
+            top = 4 if hi == "inf" else hi + 1
+            for k in range(0, top + 1):
+                vals = [b"v%d" % j for j in range(k)]
+                for tail in ([], [b";"], [b";", b"sub"], [b"--pf"], [b";", b"--pf"], [b"sub"], [b";", b";"], [b";", b"x", b";", b"sub"]):
+                    ln = vals + tail
+                    for w in words:
+                        out.append(case_line(mode, root, [b"prog"] + ln + [w], len(ln) + 1))
+    return out
+
+
 def gen_precedence(mode):
     out = []
     lines = [[b"run", b"a", b"build"], [b"run", b"build"], [b"a", b"run"], [b"a", b"run", b"b", b"build"],
@@ -953,11 +1067,11 @@ def coverage(cases, tag):
 def streams(tier, rng):
     quick = tier == "quick"
     dyn_cases = gen_random(rng, 120 if quick else 1500, 3, "dyn")
-    st_cases = gen_states(rng, tier, "dyn", 2 if quick else 3, 400 if quick else 6000) + gen_precedence("dyn") + gen_argsconflict("dyn")
+    st_cases = gen_states(rng, tier, "dyn", 2 if quick else 3, 400 if quick else 6000) + gen_precedence("dyn") + gen_argsconflict("dyn") + gen_terminators("dyn")
     acc_cases = gen_random(rng, 60 if quick else 500, 2, "dynaccept", conventional=False) \
         + gen_random(rng, 80 if quick else 700, 2, "dynaccept", conventional=True) \
         + gen_states(rng, tier, "dynaccept", 1 if quick else 2, 250 if quick else 3000) \
-        + gen_pending("dynaccept") + gen_precedence("dynaccept") + gen_argsconflict("dynaccept")
+        + gen_pending("dynaccept") + gen_precedence("dynaccept") + gen_argsconflict("dynaccept") + gen_terminators("dynaccept")
     ord_cases = gen_order(rng, 60 if quick else 600, 3)
     return [
         Stream("dyn", dyn_cases, oracle=total_oracle, area="dynamic", project=project, nontrivial=nontrivial,
